@@ -77,6 +77,12 @@ func checkC01(w *World, r *Report) {
 	if r.importObs(w, func(t *Report) { r1(w, t, x); startupLag(w, t, "R-1") }, "R-1", "D-8") < 12 {
 		r.Undecided("D-8", "process-age", "fewer than 12 controller fields written during block execution were found")
 	}
+	// D-9: mempool checks and queries are node-local requests: what they do must not
+	// reach the state block execution reads (C06 X-1 overlays, X-2 in-memory
+	// controller state, X-4 the live EVM state)
+	if r.importRules(w, func(t *Report) { x1(w, t, x); x2(w, t, x); x4(w, t, x) }, "D-9", "X-1a", "X-1b", "X-1c", "X-2", "X-4") < 40 {
+		r.Undecided("D-9", "request-isolation", "the isolation rules (C06 X-1, X-2, X-4) matched fewer than 40 constructs")
+	}
 	r.Floor("D-1", 1, "API calls (positive control + exception)")
 	r.Floor("D-2", 4, "map ranges + iterator who-may-call")
 	r.Floor("D-3", 3, "comparators")
